@@ -31,6 +31,7 @@ Dispatch(o) ==
     [] o.name = "Len"       -> LenOp
     [] o.name = "Walk"      -> Walk
     [] o.name = "Tick"      -> Tick
+    [] o.name = "Relay"     -> Relay
     [] o.name = "Cleanup"   -> Cleanup(o.skip)
     [] OTHER                -> FALSE
 
